@@ -15,7 +15,12 @@ Inductive vgate :=
 | VG1 (g : g1)
 | VRot (a : axis) (n d : Z)
 | VG2 (g : g2)
-| VMov.
+| VMov
+| VCustom (name : string) (G : mat).
+   (* a vanilla gate that is NOT in the frozen specification table (newly added to the code base):
+      its operator is the exact K32 form of the class's own published to_matrix(), found and
+      numerically verified by the translator - "specification derived from the implementation's
+      own matrix" (weaker than the frozen table: it shows decomposition = published matrix) *)
 
 Inductive placement :=
 | PSingle      (* one operand *)
@@ -41,6 +46,10 @@ Definition gate_spec (g : vgate) (p : placement) : option mat :=
   | VG2 g, PEC => Some (g2_mat g)
   | VG2 g, PCE => Some (embed 2 [1%nat; 0%nat] (g2_mat g))
   | VG2 g, PCC => Some (kron (mid 2) (g2_mat g))
+  | VCustom _ G, PSingle => if dims_ok 2 2 G then Some G else None
+  | VCustom _ G, PEC => if dims_ok 4 4 G then Some G else None
+  | VCustom _ G, PCE => if dims_ok 4 4 G then Some (embed 2 [1%nat; 0%nat] G) else None
+  | VCustom _ G, PCC => if dims_ok 4 4 G then Some (kron (mid 2) G) else None
   | _, _ => None
   end.
 
@@ -126,3 +135,6 @@ Definition hw_line_ok (d : Z) (outs : list (option (Z * Z))) : bool :=
 (* indices of the rows that do not check (for the harness: the row is the input) *)
 Definition bad_row_idx (rows : list nvrow) : list nat :=
   map fst (filter (fun p : nat * nvrow => negb (row_ok (snd p))) (combine (seq 0 (List.length rows)) rows)).
+
+(* rows whose specification is the frozen table (known mnemonics) vs derived from to_matrix() *)
+Definition is_frozen (r : nvrow) : bool := match r_gate r with VCustom _ _ => false | _ => true end.
